@@ -108,6 +108,8 @@ class C05(Prop):
             got = impl.split(" ")[1]
             for ent in ([] if got == "-" else got.split(",")):
                 k, pw, pf = ent.rsplit(":", 2)
+                if int(pw) == 0:
+                    return f"unit expression {case.text!r} accepted as {got}: it keeps the unit {k} with power zero (units that cancel must disappear, or the result is not the dimensionless unit)"
                 rec = self._bykey.get(k)
                 if rec is None:
                     return f"unit expression read as {got}: unknown unit {k}"
@@ -127,6 +129,20 @@ class C05(Prop):
 
     def cases(self, rng, tier):
         out = self._cases(rng, tier)
+        # `**` is the other spelling of `^`, in unit expressions too (`m**2`): every third case
+        # that writes a power gets a twin with that spelling and the same expectation
+        twins = []
+        k = 0
+        for c in out:
+            if "^" in (c.text or "") and c.tag in ("unitexpr", "unitexpr-mixed", "unitexpr-fixed", "refsweep"):
+                k += 1
+                if k % 3 == 0:
+                    t2 = c.text.replace("^", "**")
+                    cmd = c.line.split(" ")[0]
+                    c2 = Case(cmd + " " + C.hexs(t2), c.tag, t2)
+                    c2.expect = c.expect
+                    twins.append(c2)
+        out += twins
         # only words that can be typed as one query word (the lexer's word characters)
         def typeable(c):
             if not c.tag.startswith("word"):
@@ -186,6 +202,22 @@ class C05(Prop):
             by_name.setdefault(w[1], []).append(w)
         forms = [(1, -1, "{a}/{b}"), (1, -3, "{a}/{b}^3"), (2, -2, "{a}^2/{b}^2"), (1, -1, "{a}*{b}^-1"), (-1, 1, "1/{a}*{b}"),
                  (1, -1, "{a} s/{b}"), (2, -1, "{a}^2/{b}"), (1, 1, "{a}*{b}")]
+        # the same unit (same prefix) twice with powers that cancel or add up, incl. the redundant ^1
+        same_forms = [(1, -1, "{a}/{a}^1"), (-1, 1, "{a}^-1*{a}^1"), (1, -2, "{a}/{a}^2"), (1, -1, "{a}*{a}^-1"), (2, -2, "{a}^2/{a}^2"),
+                      (1, -1, "{a} {a}^-1"), (1, 1, "{a}*{a}^1"), (1, -1, "{a}/{a}"), (2, -1, "{a}^2/{a}^1"), (1, 0, "{a}*{a}^0"),
+                      (1, -1, "s {a}/{a}^1")]
+        for w0 in simple[:: 4 if tier == "quick" else 1] + pref[:: 40 if tier == "quick" else 3]:
+            for (pa, pb, form) in same_forms:
+                text = form.format(a=w0[0] + w0[1])
+                scale = (Fraction(10) ** w0[3] * w0[5]) ** (pa + pb)
+                dims = [x * (pa + pb) for x in w0[4]]
+                if form.startswith("s "):   # the form itself puts a second in front
+                    if w0[1] == "s" and w0[0] == "":
+                        continue            # `s s/s^1`: the extra unit is the same unit
+                    dims[3] += 1
+                c = Case("unit " + C.hexs(text), "unitexpr-mixed", text)
+                c.expect = ("MIXED", scale, tuple(dims))
+                out.append(c)
         picks = simple[:: 5 if tier == "quick" else 1]
         for w0 in picks:
             alts = by_name.get(w0[1], [])
